@@ -578,6 +578,13 @@ def gen_pwc(rng):
     n = rng.randint(1, 3)
     cfg["kind"] = "pwc"
     cfg["K"] = [[rng.choice([0, 0, 0.25, 0.5, 1, 1, 2]) for _ in range(ntr)] for _ in range(n)]
+    for row in cfg["K"]:
+        # a query point far from every training sample: kernel values tiny but not zero (an RBF kernel at distance 6..27):
+        # the row's frequency mass is positive and far below machine epsilon
+        if rng.random() < 0.25:
+            e = rng.choice([-60, -200, -1000])
+            for j in range(ntr):
+                row[j] = rng.choice([0.0, 2.0 ** e, 2.0 ** (e - 1), 2.0 ** (e + 2)])
     if ntr == 0:
         cfg["K"] = [[] for _ in range(n)]
     kk = observed_k(cfg)
